@@ -20,7 +20,7 @@ ASSUMPTIONS = [
     "existence queries reject corruption on local stores only (the base store's query is existence-only, as the statement says)",
 ]
 MONITORS = "verdicts of check / oids_exist / checkout / verifying add compared with the harness's own ground truth of which objects were tampered; file presence and mode bits re-read from disk"
-REQUIRED_COUNTERS = ["tree_level_checks", "verifying_adds_through_a_copied_store_object", "relinking_checkouts_over_intact_copies", "verify_transfer_rounds_by_configuration_only", "re_adds_of_tampered_object", "probes_with_removal_denied", "big_existence_queries", "verify_transfer_rounds", "verify_add_over_intact_object", "read_only_handle_probes", "used_intact_before_tamper", "probe/check", "probe/oids_exist", "probe/checkout", "probe/verify-add", "state/warm", "state/cold", "state/none",
+REQUIRED_COUNTERS = ["verifying_adds_with_hardlink_option", "verifying_adds_with_a_retrying_error_hook", "tree_level_checks", "verifying_adds_through_a_copied_store_object", "relinking_checkouts_over_intact_copies", "verify_transfer_rounds_by_configuration_only", "re_adds_of_tampered_object", "probes_with_removal_denied", "big_existence_queries", "verify_transfer_rounds", "verify_add_over_intact_object", "read_only_handle_probes", "used_intact_before_tamper", "probe/check", "probe/oids_exist", "probe/checkout", "probe/verify-add", "state/warm", "state/cold", "state/none",
                      "tampered_objects", "intact_objects_checked", "store/local", "store/base", "tamper/truncate", "tamper/append",
                      "tamper/same-length", "tamper/diff-length", "tamper/rename", "unprotected_intact_checked"]
 
@@ -113,12 +113,35 @@ def run_shard(ctx):
                     res.count("verifying_adds_through_a_copied_store_object")
                 errs = []
                 kw = {} if via_cfg else {"verify": True}
-                vodb.add([src], fs, [wrong], on_error=(lambda o, e: errs.append(o)) if rng.random() < 0.5 else None, **kw)
+                if rng.random() < 0.3:
+                    # the caller asks for hard links where possible (the source is an ordinary, writable file)
+                    kw["hardlink"] = True
+                    res.count("verifying_adds_with_hardlink_option")
+                hook = (lambda o, e: errs.append(o)) if rng.random() < 0.5 else None
+                retried = False
+                if hook is not None and rng.random() < 0.4:
+                    # a hook that retries: told that the object was rejected, it adds the right bytes for that id (from elsewhere) through
+                    # the same store before returning
+                    fallback = os.path.join(d, "fallback-source")
+                    with open(fallback, "wb") as f:
+                        f.write(files[k] + b"other")
+                    retried = True
+                    res.count("verifying_adds_with_a_retrying_error_hook")
+
+                    def hook(o, e):
+                        errs.append(o)
+                        vodb.add([fallback], fs, [o], **{k_: v_ for k_, v_ in kw.items() if k_ != "hardlink"})
+
+                vodb.add([src], fs, [wrong], on_error=hook, **kw)
                 res.nontrivial("verify", files[k], cls, smode, via_cfg)
                 res.sample({**cfg, "verify_via_config": via_cfg})
                 p = vodb.oid_to_path(wrong)
-                if os.path.exists(p):
-                    res.violation("verifying-add-retained-mismatching-object", f"object {wrong} kept although its bytes hash to {good}", case=case, detail=cfg)
+                if retried:
+                    if not os.path.exists(p) or H("md5", file_bytes(p)) != wrong:
+                        res.violation("intact-object-deleted/added-by-the-retrying-error-hook", f"object {wrong}, added intact (and verified) by the caller's error hook, is "
+                                      + ("gone" if not os.path.exists(p) else "mismatching") + " when the outer add returns", case=case, detail=cfg)
+                elif os.path.exists(p):
+                    res.violation("verifying-add-retained-mismatching-object" + ("/hardlink-option" if kw.get("hardlink") else ""), f"object {wrong} kept although its bytes hash to {good}", case=case, detail=cfg)
                 # and a matching add is kept and (local) protected
                 vodb.add([src], fs, [good], **kw)
                 p = vodb.oid_to_path(good)
